@@ -361,6 +361,10 @@ def poison_run(ctx, poison_kind, payload, k):
             w.start_event(arn, "p", {"v": 1, "items": [1, 2]}, message_id="poison-start")
         elif poison_kind == "event":
             ch.basic_publish("", EVENTQ, json.dumps(payload), props("poison-ev"))
+        elif poison_kind == "event-noid":
+            # an event from a client that sets no AMQP message id (nothing obliges it to): two of them, so that they cannot hide behind one another
+            ch.basic_publish("", EVENTQ, json.dumps(payload), props(None))
+            ch.basic_publish("", EVENTQ, json.dumps(payload), props(None))
         elif poison_kind == "raw":
             ch.basic_publish("", EVENTQ, payload, props("poison-raw"))
         elif poison_kind == "instance-event":
@@ -482,6 +486,8 @@ def run(ctx):
                ("event", {"context": {"StateMachine": {"Id": "arn:aws:states:local:0123456789:stateMachine:h"}, "State": 5}}),
                ("event", {"context": {"StateMachine": {"Id": "arn:aws:states:local:0123456789:stateMachine:h"}, "State": {"Name": "Nowhere"}, "Execution": {"Id": "arn:aws:states:local:0123456789:execution:h:x"}}}),
                ("event", {"context": {"StateMachine": {"Id": "arn:aws:states:local:0123456789:stateMachine:byvalue", "Definition": 5}}}),
+               ("event-noid", [1, 2]), ("event-noid", 5), ("event-noid", {"context": 5}), ("event-noid", {"context": {"StateMachine": {"Id": "not-an-arn", "Definition": {"StartAt": "A", "States": {"A": {"Type": "Pass", "End": True}}}}}}),
+               ("event-noid", {"data": {"ok": 1}, "context": {"StateMachine": {"Id": "arn:aws:states:local:0123456789:stateMachine:h"}}}),
                ("raw", "{not json"), ("raw", ""), ("raw", b"\xff\xfe"), ("instance-event", {"data": {}, "context": {"StateMachine": {"Id": "arn:aws:states:local:0123456789:stateMachine:h"}, "State": {"Name": "H2", "Branch": 5}, "Execution": {"Id": "arn:aws:states:local:0123456789:execution:h:y"}}}),
                ("reply", "{not json"), ("reply", json.dumps({"errorType": "X"})), ("reply", "5")]
     # fields the engine dereferences, with a value of the wrong JSON type (each would be refused by the validator, so only a store written
